@@ -1,6 +1,7 @@
 mod common;
 mod c03;
 mod c06;
+mod c07;
 mod c12;
 mod c13;
 mod c15;
@@ -9,6 +10,7 @@ mod c16conf;
 mod c19;
 mod c20;
 mod simdir;
+mod dump;
 mod iso;
 mod qmodel;
 
@@ -22,6 +24,7 @@ fn registry(id: &str) -> Option<(RunFn, ReplayFn)> {
     match id {
         "C03" => Some((c03::run, c03::replay)),
         "C06" => Some((c06::run, c06::replay)),
+        "C07" => Some((c07::run, c07::replay)),
         "C12" => Some((c12::run, c12::replay)),
         "C13" => Some((c13::run, c13::replay)),
         "C15" => Some((c15::run, c15::replay)),
